@@ -1,17 +1,35 @@
 ---------------------------- MODULE Scen_Auction ----------------------------
-(* Scenario generator: behaviours of Auction (environment actions recorded in a history         *)
-(* variable) until every auctioned key has been served; printed as JSON and replayed on the     *)
-(* real strategies / block relay service by the Go driver.  The driver only uses the            *)
-(* environment's part of a behaviour (relay configurations, each relay's answers with the       *)
-(* clock phase in which they are delivered, the keys auctioned and served).                     *)
+(* Scenario generator: one scenario = one HISTORY of Auction (the life of one strategy service  *)
+(* and one block relay service): MaxAuctions auctions on the same relay addresses, every one    *)
+(* with its own relay configurations (any minimum values; the configured public key and the      *)
+(* grace period as in the previous auction or changed for one relay: what another proposer or   *)
+(* a refresh of the execution configuration does), its own builder catalogue and bids;       *)
+(* sequential (mode "seq") or with up to MaxOpen auctions in progress at once (mode "ovl");     *)
+(* every auctioned key is served at the end, some also while other auctions are in progress.    *)
+(* Printed as JSON and replayed on ONE real strategy / block relay service by the Go driver,    *)
+(* which only uses the environment's part of a behaviour (configurations, each relay's answers  *)
+(* with the clock phase in which they are delivered, the order of starts, returns and serves).  *)
 EXTENDS Auction, Json
 
-CONSTANTS TickWeight      \* the simulator picks uniformly among successor states: weight of a clock tick
-VARIABLES hist, servedKeys
-svars == <<vars, hist, servedKeys>>
+CONSTANTS TickWeight, DeliverWeight, StartWeight   \* weights of a clock tick / a relay's answer / the start of an auction
+VARIABLES hist, servedKeys, mode, lastcfg, want
+svars == <<vars, hist, servedKeys, mode, lastcfg, want>>
 
 C(m, k, g) == [min |-> m, key |-> k, grace |-> g]
-ScenCfgSet == [Relays -> {C(m, k, g) : m \in {0, 2}, k \in {"none", "config", "provider"}, g \in {0, 1}}]
+ScenCfgSet == [Relays -> {C(m, k, g) : m \in {0, 2}, k \in {"none", "config"}, g \in {0, 1}}]
+ScenProvSet == [Relays -> BOOLEAN]
+K(s, p, v) == [s |-> s, p |-> p, v |-> v]
+\* (slot, parent, pubkey): two validators of one slot, two parents of one slot, the next slot
+ScenKeys == {K(1, 1, 1), K(1, 1, 2), K(1, 2, 1), K(2, 1, 1)}
+
+FlipKey(k) == IF k = "none" THEN "config" ELSE "none"
+\* the relay configurations of the next auction: any minimum values, the public key added to / removed
+\* from at most one relay's configuration, the grace period of at most one relay changed
+NextCfgs(c) ==
+    { [r \in Relays |-> [min |-> m[r],
+                         key |-> IF r = kr THEN FlipKey(c[r].key) ELSE c[r].key,
+                         grace |-> IF r = gr THEN 1 - c[r].grace ELSE c[r].grace]] :
+        m \in [Relays -> {0, 2}], kr \in Relays \cup {0}, gr \in Relays \cup {0} }
 
 \* bias: every clean bid; each single eligibility defect on a bid that would win if wrongly accepted
 TopVal == CHOOSE v \in Values : \A w \in Values : w <= v
@@ -25,32 +43,53 @@ DefectBids ==
     \cup { Clean(0, "std", 1), [Clean(TopVal, "plus", 2) EXCEPT !.sig = "invalid", !.feeZero = TRUE] }
 ScenAnswers == CleanBids \cup DefectBids \cup {NoBidAnswer, ErrorAnswer}
 
-CfgSeq == [r \in Relays |-> cfg[r]]
-\* the builder catalogue the driver configures the block relay service with
-BuilderTable == [b \in BuilderSet |-> [hasOff |-> BOff(b) # None, off |-> IF BOff(b) = None THEN 0 ELSE BOff(b),
-                                       hasFac |-> BFac(b) # None, fac |-> IF BFac(b) = None THEN 0 ELSE BFac(b)]]
+Seq3(f) == [r \in Relays |-> f[r]]
+\* the builder catalogue the driver hands to the strategy for this auction
+BuilderTable(t) == [b \in BuilderSet |-> [hasOff |-> BOff(t, b) # None, off |-> IF BOff(t, b) = None THEN 0 ELSE BOff(t, b),
+                                          hasFac |-> BFac(t, b) # None, fac |-> IF BFac(t, b) = None THEN 0 ELSE BFac(t, b)]]
 
 SInit ==
     /\ Init
     /\ servedKeys = {}
-    /\ hist = <<[ev |-> "Reset", variant |-> variant, key |-> key, cfg |-> CfgSeq, builders |-> BuilderTable]>>
+    /\ mode \in {"seq", "ovl"}
+    /\ lastcfg \in ScenCfgSet
+    /\ want \in 2..MaxAuctions
+    /\ hist = <<[ev |-> "Reset", variant |-> variant, prov |-> Seq3(prov), mode |-> mode]>>
 
 H(e) == hist' = Append(hist, e)
 
-Done == returned /\ \A k \in Keys : cache[k] # Unset => k \in servedKeys
+Started == {i \in Auc : st[i] # "idle"}
+Finished == Open = {} /\ Cardinality(Started) >= want /\ \A k \in Keys : cache[k] # Unset => k \in servedKeys
+
+\* TLC's simulator computes every successor state of a step and picks one uniformly: the big choices (the
+\* answer of a relay, the configurations of the next auction) are drawn with RandomElement (which follows
+\* -seed; bound with \E x \in {RandomElement(S)} so that every use sees the same draw) instead of being enumerated, and the weights of the environment's moves are explicit (w is part
+\* of the recorded step so that the copies are distinct states)
+NextIdle == CHOOSE i \in Auc : st[i] = "idle" /\ \A j \in Auc : j < i => st[j] # "idle"
+FreeKeys == {k \in Keys : cache[k] = Unset /\ \A j \in Open : key[j] # k}
 
 SNext ==
-    /\ ~Done
-    /\ \/ \E r \in Relays, a \in AnswerSet :
-            Deliver(r, a) /\ H([ev |-> "Deliver", r |-> r, n |-> rounds[r] + 1, a |-> a, ph |-> clock])
-                          /\ UNCHANGED servedKeys
-       \/ \E e \in chan : Consume(e) /\ UNCHANGED <<hist, servedKeys>>
-       \/ \E w \in 1..TickWeight : Tick /\ H([ev |-> "Tick", w |-> w]) /\ UNCHANGED servedKeys
-       \/ Return /\ H([ev |-> "Return"]) /\ UNCHANGED servedKeys
-       \/ \E k \in Keys : NewAuction(k) /\ H([ev |-> "Auction", key |-> k]) /\ UNCHANGED servedKeys
+    /\ ~Finished
+    /\ \/ /\ Cardinality(Started) < want
+          /\ mode = "seq" => Open = {}
+          /\ FreeKeys # {}
+          /\ \E w \in 1..StartWeight, k \in {RandomElement(FreeKeys)}, c \in {RandomElement(NextCfgs(lastcfg))},
+                t \in {RandomElement(TableSet)} :
+               LET i == NextIdle
+               IN /\ Start(i, k, c, t)
+                  /\ H([ev |-> "Auction", i |-> i, key |-> k, cfg |-> Seq3(c), tab |-> t, builders |-> BuilderTable(t), w |-> w])
+                  /\ lastcfg' = c
+          /\ UNCHANGED <<servedKeys, mode, want>>
+       \/ \E i \in Open, r \in Relays, w \in 1..DeliverWeight : \E a \in {RandomElement(AnswerSet)} :
+            Deliver(i, r, a) /\ H([ev |-> "Deliver", i |-> i, r |-> r, n |-> rounds[i][r] + 1, a |-> a, ph |-> clock[i], w |-> w])
+                             /\ UNCHANGED <<servedKeys, mode, lastcfg, want>>
+       \/ \E i \in Open : \E e \in chan[i] : Consume(i, e) /\ UNCHANGED <<hist, servedKeys, mode, lastcfg, want>>
+       \/ \E i \in Open, w \in 1..TickWeight : Tick(i) /\ H([ev |-> "Tick", i |-> i, w |-> w]) /\ UNCHANGED <<servedKeys, mode, lastcfg, want>>
+       \/ \E i \in Open : Return(i) /\ H([ev |-> "Return", i |-> i]) /\ UNCHANGED <<servedKeys, mode, lastcfg, want>>
        \/ \E k \in Keys \ servedKeys : Serve(k) /\ H([ev |-> "Serve", key |-> k]) /\ servedKeys' = servedKeys \cup {k}
+                                                /\ UNCHANGED <<mode, lastcfg, want>>
 
 SSpec == SInit /\ [][SNext]_svars
 
-Emit == Done => PrintT(ToJson(hist))
+Emit == Finished => PrintT(ToJson(hist))
 =============================================================================
